@@ -56,6 +56,17 @@ def run (ds : List Disp) (a : Around) (bodyRaises : Bool) : List Ev × Bool :=
   else
     (enterEvs 0 ds ++ exitEvs true 0 ds, true)          -- rollback with the failure; the body never runs
 
+/-- positions of the disposables whose `__aexit__` was called and raised -/
+def raisers : Nat → List Disp → List Nat
+  | _, [] => []
+  | i, d :: ds => (if d.enter = .entered ∧ d.exitRaises = true then [i] else []) ++ raisers (i + 1) ds
+
+/-- the disposables whose cleanup error **reaches the caller**: it is the exception raised, a member of the raised
+exception group, or on the `__cause__` / `__context__` chain of what is raised – on the normal path (after the body) and
+on the rollback of a failed or interrupted enter alike (repaired `_dispose`: the gathered results used to be dropped) -/
+def surfaced (ds : List Disp) (a : Around) : List Nat :=
+  if a.pendingCancel then [] else raisers 0 ds
+
 def isEnter (d : Nat) : Ev → Bool | .enterCall i => i == d | _ => false
 def isExit (d : Nat) : Ev → Bool | .exitCall i _ => i == d | _ => false
 def isBody : Ev → Bool | .body => true | _ => false
